@@ -21,12 +21,15 @@ Verdict(r) ==
        ELSE "ok"
   ELSE \* update: only the fields named on the update's command line change
        \* (an update names a subset of the fields: the update command must not insist on the others)
-       IF ~r.upd_ok THEN (IF r.cmd_obs.outcome = "Ok" THEN "C15-update-fails-though-command-accepts"
-                          ELSE IF r.cmd_obs.kind = "MissingRequiredArgument" /\ Run(DeriveCmd(desc, TRUE), r.upd).outcome = "Ok"
+       IF ~r.upd_ok THEN (IF r.cmd_obs.outcome = "Ok"
+                          THEN (IF UpdateValue(desc, r.before, r.cmd_obs).ok THEN "C15-update-fails-though-command-accepts" ELSE "ok")
+                          ELSE IF r.cmd_obs.kind \in {"MissingRequiredArgument", "MissingSubcommand", "DisplayHelpOnMissingArgumentOrSubcommand"}
+                                  /\ Run(DeriveCmd(desc, TRUE), r.upd).outcome = "Ok"
                                THEN "C15-update-requires-a-field-it-does-not-name"
                           ELSE "ok")
        ELSE IF r.cmd_obs.outcome # "Ok" THEN "C15-update-accepts-though-command-rejects"
-       ELSE IF r.value.top # UpdateTop(desc, r.before.top, r.cmd_obs.chain[1]) THEN "C15-update-touches-unnamed-field"
+       ELSE IF ~UpdateValue(desc, r.before, r.cmd_obs).ok THEN "C15-update-accepts-an-incomplete-variant"
+       ELSE IF r.value # UpdateValue(desc, r.before, r.cmd_obs).v THEN "C15-update-touches-unnamed-field"
        ELSE "ok"
 Init == l = 1
 Next ==
